@@ -283,6 +283,24 @@ static void *enq_main(void *arg)
 	return NULL;
 }
 
+/* Stall a call_rcu() caller now and then between the choice of its helper and the enqueue, for
+ * longer than a whole per-CPU helper teardown (set_cpu_call_rcu_data(NULL) x n, synchronize_rcu(),
+ * stop + join + hand-over + free) takes.  On correct code the caller is inside call_rcu()'s own
+ * read-side section there, so the teardown's grace period waits for it; if that section does not cover
+ * the enqueue the callback lands on a stopped, freed helper (lost callback / use after free). */
+static uint64_t pre_enqueue_stalls;
+static void crcu_user_hook(int point, const void *ctx)
+{
+	(void) ctx;
+	if (point != URCU_VP_CRCU_PRE_ENQUEUE || layout < 2 || !churn_helpers)
+		return;
+	struct vp_thr *t = vp_self();
+	if (vp_rand_n(&t->rng, 1500))
+		return;
+	__atomic_fetch_add(&pre_enqueue_stalls, 1, __ATOMIC_RELAXED);
+	usleep(8000 + vp_rand_n(&t->rng, 40000));
+}
+
 /* per-CPU helper manager */
 static uint64_t percpu_cycles;
 static void *manager_main(void *arg)
@@ -523,6 +541,7 @@ int main(int argc, char **argv)
 		vp_point_set(pts[i], pts[i] == URCU_VP_CRCU_ENQUEUED || pts[i] == URCU_VP_WFCQ_APPEND_MID ? hookp / 10 : hookp * 5 > 0.5 ? 0.5 : hookp * 5,
 			     VP_D_HEAVY);
 
+	vp_user_hook = crcu_user_hook;
 	vp_quar_init(&quar, 1 << 17, obj_release);
 	for (int i = 0; i < n_enq; i++) {
 		caprecs[i] = (size_t) calls_per_enq + NSLOTS + 1;
@@ -634,6 +653,7 @@ int main(int argc, char **argv)
 	vp_counter_add("barriers_nontrivial", bnontriv);
 	vp_counter_add("helper_destroy_cycles", hc);
 	vp_counter_add("percpu_recreate_cycles", percpu_cycles);
+	vp_counter_add("pre_enqueue_stalls", __atomic_load_n(&pre_enqueue_stalls, __ATOMIC_RELAXED));
 	vp_counter_add("reader_sections", secs);
 	vp_counter_add("reader_validations", vals);
 #if !(VP_ASAN || VP_TSAN)
